@@ -371,6 +371,14 @@ def drive(rec, seed=0, tier="quick"):
             tm.run(np.linspace(0.5, 4.5, 5), value="J")
             tm.run(float(2.0 + 0.1 * k), value="I")
             tm.run(float(2.5 + 0.1 * k), value="J")
+        # large, nearly orthogonal cells on fine meshes: the microzone diagonals differ by ~1e-9 in squared length
+        # (relative 1e-4, far above rounding); every one of the four main diagonals is the shortest for some sign
+        # pattern of the off-diagonal metric, and the kernel must still pick the one the reference picks (seed c13-8)
+        for k in range(12):
+            sg = [(1, 1, 1), (-1, 1, 1), (1, -1, 1), (1, 1, -1)][k % 4]
+            off = (0.002 + 0.004 * rng.random(3)) * np.array(sg)
+            cell = np.eye(3) * (11.0 + k % 3) + np.array([[0, off[0], off[1]], [off[0], 0, off[2]], [off[1], off[2], 0]])
+            TetrahedronMethod(np.linalg.inv(cell), mesh=[48 + 16 * (k % 2)] * 3)
     return notes
 
 
